@@ -154,7 +154,7 @@ func run(raw json.RawMessage) (common.Case, error) {
 			lv = 1
 		}
 		locals = append(locals, common.App("lblk", common.N(uint64(i)),
-			common.App("mklinfo", common.Bool(s.NumSamples > 0), common.N(uint64(lv)), common.Z(s.MinTime))))
+			common.App("mklinfo", common.Bool(s.NumSamples > 0), common.N(uint64(lv)), common.Z(s.MinTime), common.Z(s.MaxTime))))
 	}
 	inner := objstore.NewInMemBucket()
 	ctx := context.Background()
@@ -330,6 +330,9 @@ func gen(r *rand.Rand, tier string, n int) []any {
 			}
 			if r.Intn(4) == 0 {
 				s.Level = 2 + r.Intn(2)
+				if r.Intn(3) == 0 { // a locally compacted block reaching into the next slot
+					s.MaxTime += 1000
+				}
 			}
 			nc := 1 + r.Intn(3)
 			for j := 0; j < nc; j++ {
@@ -346,11 +349,13 @@ func gen(r *rand.Rand, tier string, n int) []any {
 			}
 		}
 		var uc, ooo bool
-		switch r.Intn(3) {
+		switch r.Intn(4) {
 		case 1:
 			ooo = true
 		case 2:
 			uc, ooo = true, true
+		case 3:
+			uc = true
 		}
 		for s := 0; s < ns; s++ {
 			// the TSDB directory evolves: new blocks appear, old ones are removed
@@ -362,13 +367,15 @@ func gen(r *rand.Rand, tier string, n int) []any {
 				}
 			}
 			if r.Intn(8) == 0 {
-				switch r.Intn(3) {
+				switch r.Intn(4) {
 				case 0:
 					uc, ooo = false, false
 				case 1:
 					uc, ooo = false, true
 				case 2:
 					uc, ooo = true, true
+				case 3:
+					uc, ooo = true, false
 				}
 			}
 			if r.Intn(10) == 0 {
@@ -386,9 +393,9 @@ func gen(r *rand.Rand, tier string, n int) []any {
 			r.Shuffle(len(sy.Present), func(a, b int) { sy.Present[a], sy.Present[b] = sy.Present[b], sy.Present[a] })
 			switch k := r.Intn(10); {
 			case k < 4:
-				sy.Crash = r.Intn(4 + 3*len(sy.Present))
+				sy.Crash = r.Intn(4 + 4*len(sy.Present))
 			case k < 6:
-				sy.Fail = r.Intn(4 + 3*len(sy.Present))
+				sy.Fail = r.Intn(4 + 4*len(sy.Present))
 			}
 			in.Syncs = append(in.Syncs, sy)
 		}
